@@ -162,6 +162,9 @@ func EvalPred(t *TableDef, p *Pred, r MRow) tri {
 
 // evalCheck evaluates a CHECK on a row (violated only when FALSE).
 func evalCheck(t *TableDef, c CheckDef, r MRow) tri {
+	if c.NotEnforced {
+		return tTrue
+	}
 	a := r[c.A]
 	var b Val = c.C
 	if c.BIsCol {
